@@ -525,7 +525,7 @@ PTC_SWAP = "((search == __CPROVER_loop_entry(search) && found == __CPROVER_loop_
            "(search == __CPROVER_loop_entry(found) && found == __CPROVER_loop_entry(search)))"
 PTC_LOC = ["i", "j", "loc", "loopCount", "currentSearchNum", "numSearchHexes", "numFoundHexes", "search", "found", "bboxes", "out",
            "numHexagons", "ring", "edgeHexError", "hexCenter", "temp", "searchHex", "hex"]
-J(name="c17.polygonToCells", props=["C17", "C18"], harness="c17.c", entry="h_polygonToCells", alloc=True, timeout=1200,
+J(name="c17.polygonToCells", props=["C17"], harness="c17.c", entry="h_polygonToCells", alloc=True, timeout=3000, tier="thorough",
   enforce=["polygonToCells/polygonToCells_c17"], checks=["--no-standard-checks", "--pointer-check"],
   replace=["validatePolygonFlags", "maxPolygonToCellsSize/maxPolygonToCellsSize_frame", "_getEdgeHexagons/_getEdgeHexagons_frame",
            "bboxesFromGeoPolygon/bboxesFromGeoPolygon_frame", "gridDisk/gridDisk_k1_c17", "cellToLatLng/cellToLatLng_frame",
